@@ -34,13 +34,51 @@ def render(v):
     return json.dumps({"jsonrpc": "2.0", "id": 1, "method": v["method"], "params": params})
 
 
+COSMOS = {"rest_block": "rest", "tm_block": "tendermintrpc", "grpc_block": "grpc"}
+LAV1_NATIVE_RULE = 5680
+
+
+def render_cosmos(v):
+    """-> (url, data, conn, expected api name) for the LAV1 interfaces."""
+    blk = str(v["req"]) if v["req"] >= 0 else TAGS[v["req"]]
+    if v["method"] == "rest_block":
+        api = "/cosmos/base/tendermint/v1beta1/blocks/" + ("latest" if blk == "latest" else "{height}")
+        return "/cosmos/base/tendermint/v1beta1/blocks/" + blk, "", "GET", api
+    if v["method"] == "tm_block":
+        return "", json.dumps({"jsonrpc": "2.0", "id": 1, "method": "block", "params": {"height": blk}}), "", "block"
+    api = "cosmos.base.tendermint.v1beta1.Service/GetBlockByHeight"
+    return api, json.dumps({"height": blk}), "", api
+
+
+def _lav1_rule():
+    """archive rule distance of the checked-in LAV1 spec (the grid's 5680 must be the real value)."""
+    path = os.path.join(vlib.REPO, "specs", "testnet-2", "specs", "lava.json")
+    try:
+        with open(path) as f:
+            d = json.load(f)
+        rules = {e["rule"]["block"] for sp in d["proposal"]["specs"] if sp["index"] == "LAV1"
+                 for c in sp["api_collections"] for e in (c.get("extensions") or []) if e["name"] == "archive"}
+    except Exception as e:
+        raise vlib.Infra("cannot read the LAV1 archive rule from %s: %s" % (path, e))
+    return rules
+
+
 def _jobs(vectors):
     jobs = []
     for v in vectors:
-        jobs.append({"in": {k: v[k] for k in ("req", "latest", "rule", "method")},
-                     "spec": "ETH1", "iface": "jsonrpc", "rule": v["rule"], "policy": ["archive"],
-                     "items": [{"url": "", "data": render(v), "conn": "POST", "latest": v["latest"]},
-                               {"kind": "rule", "rl": -2, "re": v["req"], "latest": v["latest"], "rule": v["rule"]}]})
+        inn = {k: v[k] for k in ("req", "latest", "rule", "method")}
+        rule_item = {"kind": "rule", "rl": -2, "re": v["req"], "latest": v["latest"], "rule": v["rule"]}
+        if v["method"] in COSMOS:
+            url, data, conn, api = render_cosmos(v)
+            inn["api"] = api
+            # the native rule of the spec is used unpatched (rule 0 = leave the checked-in value)
+            jobs.append({"in": inn, "spec": "LAV1", "iface": COSMOS[v["method"]],
+                         "rule": 0 if v["rule"] == LAV1_NATIVE_RULE else v["rule"], "policy": ["archive"],
+                         "items": [{"url": url, "data": data, "conn": conn, "latest": v["latest"]}, rule_item]})
+            continue
+        inn["api"] = v["method"]
+        jobs.append({"in": inn, "spec": "ETH1", "iface": "jsonrpc", "rule": v["rule"], "policy": ["archive"],
+                     "items": [{"url": "", "data": render(v), "conn": "POST", "latest": v["latest"]}, rule_item]})
     return jobs
 
 
@@ -50,6 +88,8 @@ def signature(kind, v, out):
     if v["req"] == -3:
         req = "earliest"
     lat = "latest=0" if v["latest"] == 0 else ("latest<=126" if v["latest"] <= 126 else "latest>126")
+    if v["method"] in COSMOS:
+        lat = "latest=0" if v["latest"] == 0 else ("latest<=rule" if v["latest"] <= v["rule"] else "latest>rule")
     where = v["method"] if kind == "conf" else "ExtensionParser"
     if out.get("panic"):
         return "panic@%s:%s:%s" % (where, req, lat)
@@ -110,6 +150,17 @@ def run(ctx):
     vectors = em["behaviours"]
     if len(vectors) != mc["distinct"]:
         raise vlib.Infra("emitted %d vectors but the grid has %d points" % (len(vectors), mc["distinct"]))
+    # second grid: the cosmos interfaces of the LAV1 spec (REST / Tendermint RPC / gRPC), native rule 5680 and rule 100
+    if _lav1_rule() != {LAV1_NATIVE_RULE}:
+        raise vlib.Infra("the checked-in LAV1 archive rule is %s, the grid assumes %d" % (_lav1_rule(), LAV1_NATIVE_RULE))
+    mcc = vlib.tlc_mc(ctx, "ArchiveRule", "ArchiveRule_cosmos.cfg", timeout=600, tag="ArchiveRule_cosmos")
+    if mcc["violated"]:
+        raise vlib.Infra("design-level: cosmos grid violates %s (see %s)" % (mcc["violated"], mcc["outfile"]))
+    ctx.add_mc("ArchiveRule cosmos grid (LAV1 rest/tendermintrpc/grpc)", mcc)
+    emc = vlib.tlc_emit(ctx, "ArchiveRule", "ArchiveRule_cosmosemit.cfg", timeout=600, tag="ArchiveRule_cosmosemit")
+    if len(emc["behaviours"]) != mcc["distinct"]:
+        raise vlib.Infra("emitted %d cosmos vectors but the grid has %d points" % (len(emc["behaviours"]), mcc["distinct"]))
+    vectors = vectors + emc["behaviours"]
     ctx.cov["evaluations"] = len(vectors)
     nontriv = [v for v in vectors if v["req"] >= 0 and v["latest"] > 0]
     ctx.cov["distinct_nontrivial"] = len(nontriv)
@@ -123,7 +174,8 @@ def run(ctx):
     if ctx.cov["expected_archive_true"] < 50 or ctx.cov["expected_archive_false"] < 50 or len(nontriv) < 200:
         raise vlib.Infra("vacuous grid: %s" % ctx.cov)
     ctx.assumptions += ["grid bounded by specs/ArchiveRule_*.cfg (block numbers <= 5000; uint64 modelled modulo 2^20)",
-                        "JSON-RPC interface of the checked-in ETH1 spec; methods eth_call and eth_getBalance",
+                        "JSON-RPC interface of the checked-in ETH1 spec (eth_call, eth_getBalance) and the REST / Tendermint RPC / gRPC "
+                        "block-by-height APIs of the checked-in LAV1 spec (native rule 5680, and 100 by patching)",
                         "rule distances other than 127 obtained by patching the loaded Spec value before SetSpec",
                         "request carries no explicit extension choice (ExtensionOverride nil)"]
     fails = _validate(ctx, vectors, "grid")
@@ -146,7 +198,7 @@ def run(ctx):
             v["method"] if w["kind"] == "conf" else "ExtensionParser(earliest)",
             TAGNAME.get(v["req"], v["req"]), v["latest"], v["rule"], w["out"]["arch"],
             v["exp"] if w["kind"] == "conf" else v["expE"], len(fl)),
-            {"vectors": [w["vector"]], "request": render(v)})
+            {"vectors": [w["vector"]], "request": render_cosmos(v)[:2] if v["method"] in COSMOS else render(v)})
 
 
 def replay(ctx, path):
